@@ -52,7 +52,7 @@ func (b *Batch) BuildDriver(extraImports []string, race bool) error {
 	drv := filepath.Join(b.Work, "drv")
 	Must(os.MkdirAll(drv, 0o755))
 	Must(os.WriteFile(filepath.Join(drv, "main.go"), []byte(DriverSource), 0o644))
-	for round := 0; round < 6; round++ {
+	for round := 0; round < 12; round++ {
 		var reg strings.Builder
 		reg.WriteString("//go:build !goverter\n\npackage main\n\nimport (\n\t\"reflect\"\n\tgen \"" + b.Mod + "/gen\"\n")
 		for _, imp := range extraImports {
@@ -73,9 +73,9 @@ func (b *Batch) BuildDriver(extraImports []string, race bool) error {
 		Must(os.WriteFile(filepath.Join(drv, "registry.go"), []byte(reg.String()), 0o644))
 		Must(os.MkdirAll(filepath.Join(b.Work, "gen"), 0o755))
 		Must(os.WriteFile(filepath.Join(b.Work, "gen", "keep.go"), []byte("package gen\n\n// Keep makes the package non-empty.\nconst Keep = 0\n"), 0o644))
-		args := []string{"-gcflags=-e", "-o", "drv.bin"}
+		args := []string{"-gcflags=all=-e", "-o", "drv.bin"}
 		if race {
-			args = []string{"-race", "-gcflags=-e", "-o", "drv.race.bin"}
+			args = []string{"-race", "-gcflags=all=-e", "-o", "drv.race.bin"}
 		}
 		out, err, d := GoBuild(b.Work, append(args, "./drv")...)
 		b.Timing["build"] += d
